@@ -653,7 +653,7 @@ def flatten(repo: Repo, ci: Optional[ClassInfo], fn: ast.FunctionDef, sf: Option
 
 
 # ---------------------------------------------------------------------------------------------- unrolling
-MAX_UNROLL = 16
+MAX_UNROLL = 48
 
 
 def _const_str(e: ast.expr) -> Optional[str]:
@@ -749,6 +749,12 @@ def _literal_elements(repo: Optional[Repo], ci: Optional[ClassInfo], e: ast.expr
                                                                                      slice=ast.Constant(value=i), ctx=ast.Load())
                                             for c, a in zip(cols, e.args)], ctx=ast.Load()))
             return rows
+    # a module / class constant written as a tuple display (rows may name codecs, attributes, …): the rows as written
+    if repo is not None and isinstance(e, (ast.Name, ast.Attribute)) or \
+            (repo is not None and isinstance(e, ast.Call) and isinstance(e.func, ast.Attribute) and e.func.attr == "items" and not e.args):
+        rows = _display_rows(repo, ci, sf, e)
+        if rows is not None:
+            return rows
     is_range = isinstance(e, ast.Call) and isinstance(e.func, ast.Name) and e.func.id == "range"
     is_const_name = isinstance(e, (ast.Name, ast.Attribute))
     if repo is not None and (is_range or is_const_name):
@@ -770,6 +776,74 @@ def _literal_elements(repo: Optional[Repo], ci: Optional[ClassInfo], e: ast.expr
                     out.append(ast.Constant(value=x))
             return out
     return None
+
+
+def _display_rows(repo: Repo, ci: Optional[ClassInfo], sf: Optional[SourceFile], e: ast.expr) -> Optional[List[ast.expr]]:
+    """Rows of a constant table as they are written in its defining display (tuple display, or `.items()` of a dict display with
+    constant keys).  Names in a class-level display that denote other class-level constants are qualified with `self.`.
+    Only immutable displays count (a tuple; a dict display is accepted because `.items()` of a module/class constant that is
+    never re-bound is what the loop iterates), and only up to MAX_UNROLL rows of plain names / constants / tuples of these."""
+    items = False
+    if isinstance(e, ast.Call):
+        items, e = True, e.func.value
+    sf = sf or (ci.file if ci is not None else None)
+    d = definition_of(repo, ci, sf, e)
+    if d is None:
+        return None
+    owner = None
+    if isinstance(e, ast.Attribute) and isinstance(e.value, ast.Name):
+        owner = ci if e.value.id in ("self", "cls") else repo.class_of_expr(e.value, ci, sf)
+        if owner is not None:
+            r = repo.lookup(owner, e.attr)
+            owner = r[0] if r is not None else owner
+    if items:
+        if not (isinstance(d, ast.Dict) and all(k is not None and isinstance(k, ast.Constant) for k in d.keys)):
+            return None
+        rows: List[ast.expr] = [ast.Tuple(elts=[k, v], ctx=ast.Load()) for k, v in zip(d.keys, d.values)]
+    elif isinstance(d, ast.Tuple) and not any(isinstance(x, ast.Starred) for x in d.elts):
+        rows = list(d.elts)
+    else:
+        return None
+    if not rows or len(rows) > MAX_UNROLL:
+        return None
+
+    def simple(x: ast.expr) -> bool:
+        if isinstance(x, (ast.Constant, ast.Name)):
+            return True
+        if isinstance(x, ast.Attribute):
+            return simple(x.value)
+        if isinstance(x, ast.UnaryOp):
+            return simple(x.operand)
+        if isinstance(x, (ast.Tuple, ast.List)):
+            return all(simple(y) for y in x.elts)
+        return False
+    if not all(simple(r) for r in rows):
+        return None
+    rows = [copy.deepcopy(r) for r in rows]
+    if owner is not None:
+        class Q(ast.NodeTransformer):
+            def visit_Name(self, node):
+                if isinstance(node.ctx, ast.Load) and node.id in owner.assigns:
+                    return ast.copy_location(ast.Attribute(value=ast.Name(id="self", ctx=ast.Load()), attr=node.id, ctx=ast.Load()), node)
+                return node
+        rows = [Q().visit(r) for r in rows]
+    return rows
+
+
+def _nest_continues(body: List[ast.stmt]) -> List[ast.stmt]:
+    """`if c: continue` followed by REST, directly in a loop body, reads as `if not c: REST`."""
+    out: List[ast.stmt] = []
+    for i, st in enumerate(body):
+        if isinstance(st, ast.If) and not st.orelse and len(st.body) >= 1 and isinstance(st.body[-1], ast.Continue) \
+                and not any(isinstance(x, (ast.Continue, ast.Break)) for b in st.body[:-1] for x in ast.walk(b)):
+            rest = _nest_continues(body[i + 1:])
+            new = ast.If(test=copy.deepcopy(st.test), body=[copy.deepcopy(b) for b in st.body[:-1]] or [ast.Pass()], orelse=rest)
+            if not st.body[:-1]:
+                new = ast.If(test=_negate(copy.deepcopy(st.test)), body=rest or [ast.Pass()], orelse=[])
+            out.append(ast.copy_location(new, st))
+            return out
+        out.append(st)
+    return out
 
 
 def _bind_target(target: ast.expr, value: ast.expr) -> Optional[Dict[str, ast.expr]]:
@@ -867,6 +941,12 @@ def unroll(fn: ast.FunctionDef, repo: Optional[Repo] = None, ci: Optional[ClassI
                             return True
                     return False
                 has_flow = own_flow(st.body)
+                if els is not None and has_flow:
+                    nested = _nest_continues(st.body)
+                    if not own_flow(nested):
+                        st = copy.copy(st)
+                        st.body = nested
+                        has_flow = False
                 if els is not None and not has_flow:
                     ok = True
                     pieces: List[ast.stmt] = []
@@ -1011,6 +1091,15 @@ def normalize(repo: Repo, ci: Optional[ClassInfo], fn: ast.FunctionDef, sf: Opti
             changed = True
         if changed:
             out = unroll(out, repo, ci, sf)      # `fields = self._FIELDS; for f in fields` now iterates the constant itself
+    if any(isinstance(n, ast.Assign) and len(n.targets) == 1 and isinstance(n.targets[0], (ast.Tuple, ast.List))
+           and isinstance(n.value, (ast.Tuple, ast.List)) for n in ast.walk(out)):
+        out = split_tuple_assigns(out)
+    if any(isinstance(n, ast.Attribute) and n.attr in ("pack", "unpack", "unpack_from", "size") for n in ast.walk(out)) or \
+            any(isinstance(n, ast.Call) and isinstance(n.func, (ast.Name, ast.Subscript)) for n in ast.walk(out)):
+        try:
+            out = desugar_structs(repo, ci, sf, out)
+        except Exception:
+            pass
     return out
 
 
@@ -1288,6 +1377,164 @@ def split_ifexp_assigns(fn: ast.FunctionDef) -> ast.FunctionDef:
     ast.fix_missing_locations(new_fn)
     number(new_fn)
     return new_fn
+
+
+def definition_of(repo: Repo, ci: Optional[ClassInfo], sf: Optional[SourceFile], e: ast.expr, depth: int = 0) -> Optional[ast.expr]:
+    """The expression a module-level / class-level name is bound to (`_UINT32`, `self._HEADER`, `Sampler.CODEC`), following
+    `from x import name`; None for anything else."""
+    if depth > 4:
+        return None
+    if isinstance(e, ast.Name) and sf is not None:
+        try:
+            return repo.module_assign(sf.modname, e.id)
+        except AnchorMissing:
+            imp = sf.imports.get(e.id)
+            if imp and imp[1] and imp[0] in repo.by_mod:
+                return definition_of(repo, None, repo.by_mod[imp[0]], ast.Name(id=imp[1], ctx=ast.Load()), depth + 1)
+            return None
+    if isinstance(e, ast.Attribute) and isinstance(e.value, ast.Name):
+        owner = None
+        if e.value.id in ("self", "cls") and ci is not None:
+            owner = ci
+        else:
+            owner = repo.class_of_expr(e.value, ci, sf)
+        if owner is not None:
+            r = repo.lookup(owner, e.attr)
+            if r is not None and r[1] == "assign":
+                return r[2]
+    return None
+
+
+def desugar_structs(repo: Repo, ci: Optional[ClassInfo], sf: Optional[SourceFile], fn: ast.FunctionDef) -> ast.FunctionDef:
+    """`CODEC.pack(a, b)` with `CODEC = Struct("<HH")` (module / class constant, a once-bound local, or `Struct(f).pack` in
+    place) reads as `pack("<HH", a, b)`; likewise `unpack`, `unpack_from(data, off)` (= `unpack(f, data[off:off + size])`) and
+    `.size`.  A once-bound local naming a bound method (`put = CODEC.pack`) is read through, and so is a table of such
+    methods indexed by a constant (`PACKERS[code](v)` with `PACKERS = {c: Struct("<" + c).pack for c in "bB"}`)."""
+    from .packed import single_defs
+    sf = sf or (ci.file if ci is not None else None)
+    new = copy.deepcopy(fn)
+    defs = single_defs(new)
+
+    def struct_format(v: ast.expr, depth: int = 0) -> Optional[ast.expr]:
+        if depth > 4:
+            return None
+        if isinstance(v, ast.Call) and norm(v.func).split(".")[-1] == "Struct" and len(v.args) == 1 and not v.keywords:
+            return v.args[0]
+        if isinstance(v, ast.Name) and v.id in defs:
+            return struct_format(defs[v.id], depth + 1)
+        d = definition_of(repo, ci, sf, v) if isinstance(v, (ast.Name, ast.Attribute)) else None
+        if d is not None:
+            f = struct_format(d, depth + 1)
+            if f is not None:
+                # the format expression belongs to the defining scope: keep it only if it folds to a constant there
+                try:
+                    val = repo.fold(f, ci=ci, sf=sf)
+                    if isinstance(val, str):
+                        return ast.Constant(value=val)
+                except Exception:
+                    pass
+                if isinstance(f, ast.Constant):
+                    return f
+        return None
+
+    def bound_method(v: ast.expr, depth: int = 0) -> Optional[Tuple[ast.expr, str]]:
+        """(format, method) when `v` denotes `<struct>.pack` / `.unpack` / …"""
+        if depth > 4:
+            return None
+        if isinstance(v, ast.Attribute) and v.attr in ("pack", "unpack", "unpack_from", "pack_into", "iter_unpack"):
+            f = struct_format(v.value)
+            if f is not None:
+                return f, v.attr
+        if isinstance(v, ast.Name) and v.id in defs:
+            return bound_method(defs[v.id], depth + 1)
+        if isinstance(v, ast.Subscript):
+            table = v.value
+            if isinstance(table, ast.Name) and table.id in defs:
+                table = defs[table.id]
+            else:
+                table = definition_of(repo, ci, sf, table) or table
+            key = v.slice
+            if isinstance(table, ast.DictComp) and len(table.generators) == 1 and not table.generators[0].ifs \
+                    and isinstance(table.generators[0].target, ast.Name) and norm(table.key) == table.generators[0].target.id:
+                env = {table.generators[0].target.id: key}
+                val = _Rename(env).visit(copy.deepcopy(table.value))
+                return bound_method(val, depth + 1)
+            if isinstance(table, ast.Dict) and isinstance(key, ast.Constant):
+                for k, val in zip(table.keys, table.values):
+                    if isinstance(k, ast.Constant) and k.value == key.value:
+                        return bound_method(val, depth + 1)
+        return None
+
+    def size_of(fmt: ast.expr) -> ast.expr:
+        try:
+            import struct as _st
+            v = repo.fold(fmt, ci=ci, sf=sf)
+            return ast.Constant(value=_st.calcsize(v))
+        except Exception:
+            return ast.Call(func=ast.Name(id="calcsize", ctx=ast.Load()), args=[copy.deepcopy(fmt)], keywords=[])
+
+    class X(ast.NodeTransformer):
+        def visit_Call(self, node):
+            node = self.generic_visit(node)
+            bm = bound_method(node.func) if isinstance(node.func, (ast.Attribute, ast.Name, ast.Subscript)) else None
+            if bm is None:
+                return node
+            fmt, meth = bm
+            if meth in ("pack", "unpack"):
+                new_call = ast.Call(func=ast.Name(id=meth, ctx=ast.Load()), args=[copy.deepcopy(fmt)] + node.args, keywords=node.keywords)
+                return ast.copy_location(new_call, node)
+            if meth == "unpack_from" and 1 <= len(node.args) <= 2 and not node.keywords:
+                data = node.args[0]
+                off = node.args[1] if len(node.args) == 2 else ast.Constant(value=0)
+                sz = size_of(fmt)
+                hi = ast.BinOp(left=copy.deepcopy(off), op=ast.Add(), right=sz) if not (isinstance(off, ast.Constant) and off.value == 0) else sz
+                sl = ast.Subscript(value=data, slice=ast.Slice(lower=None if (isinstance(off, ast.Constant) and off.value == 0) else off, upper=hi, step=None),
+                                   ctx=ast.Load())
+                new_call = ast.Call(func=ast.Name(id="unpack", ctx=ast.Load()), args=[copy.deepcopy(fmt), sl], keywords=[])
+                return ast.copy_location(new_call, node)
+            return node
+
+        def visit_Attribute(self, node):
+            node = self.generic_visit(node)
+            if node.attr == "size" and isinstance(node.ctx, ast.Load):
+                f = struct_format(node.value)
+                if f is not None:
+                    return ast.copy_location(size_of(f), node)
+            return node
+    X().visit(new)
+    ast.fix_missing_locations(new)
+    number(new)
+    return new
+
+
+def split_tuple_assigns(fn: ast.FunctionDef) -> ast.FunctionDef:
+    """`a, b = x, y` reads as `a = x; b = y` when no right-hand side reads a name bound on the left (so the order cannot matter)."""
+    class X(ast.NodeTransformer):
+        def visit_Assign(self, node):
+            if len(node.targets) == 1 and isinstance(node.targets[0], (ast.Tuple, ast.List)) and isinstance(node.value, (ast.Tuple, ast.List)) \
+                    and len(node.targets[0].elts) == len(node.value.elts) \
+                    and not any(isinstance(x, ast.Starred) for x in node.targets[0].elts + node.value.elts):
+                bound = {norm(t) for t in node.targets[0].elts}
+                reads = {norm(n) for v in node.value.elts for n in ast.walk(v) if isinstance(n, (ast.Name, ast.Attribute, ast.Subscript))}
+                if bound & reads:
+                    return node
+                out = []
+                for t, v in zip(node.targets[0].elts, node.value.elts):
+                    a = ast.copy_location(ast.Assign(targets=[t], value=v), node)
+                    for k, val in getattr(node, "__dict__", {}).items():
+                        if k in ("_synthetic", "_src_lineno"):
+                            setattr(a, k, val)
+                    out.append(a)
+                return out
+            return node
+
+        def visit_Lambda(self, node):
+            return node
+    new = copy.deepcopy(fn)
+    X().visit(new)
+    ast.fix_missing_locations(new)
+    number(new)
+    return new
 
 
 # ------------------------------------------------------------------------------------ attribution of private helpers
